@@ -32,6 +32,7 @@ type c01Rule struct {
 	t     []string // templates
 	hit   string   // regexp on the output of the first instance: the rewrite happened ("" = shape family / near misses)
 	known string   // trigger of the known finding the family falls under ("" = none)
+	gen   func() []string // further templates built by program (long declarations, many bindings)
 }
 
 // c01Rules: the enumerated rewrite rules with their trigger templates.
@@ -129,7 +130,7 @@ var c01Rules = []c01Rule{
 	// ---- util.go: optimizeUnaryExpr / optimizeBooleanExpr
 	{id: "not-demorgan", doc: "util.go:769 !(a||b) => !a&&!b, !(a==0||b==0) => a!=0&&b!=0 (when shorter)", kind: 'E',
 		t: []string{"!(a&&b)", "!(a==b&&c==d)", "!(a==b||c)", "!(!a||!b)", "!(a||b)", "!(a!=b||c!==d)", "!(a&&b||c)", "!(a&&(b||c))", "!((a||b)&&c)", "!(a==b&&c)", "!(a&&b==c)", "!(a<b&&c<d)", "!(a&&b)&&c", "!(a||b)||c", "c&&!(a||b)", "c||!(a&&b)", "!(a&&b)?c:d", "!(a=b,c&&d)",
-			"!(a&&b&&c)", "!(a||b||c)", "!(a==b&&c==d&&p==q)", "!(a??b)", "!(!a&&!b)", "!(a==b||!c)", "!(f(1)&&g(2))", "!(f(1)==a||g(2)!=b)", "!!(a&&b)", "!!(a==b)", "!(a===b)==c", "c+!(a==b&&c==d)", "!(a==b&&c==d)+c", "typeof!(a==b||c==d)", "-!(a!=b&&c!=d)"}, hit: `x=!a\|\|!b`},
+			"!(a&&b&&c)", "!(a||b||c)", "!(a&&b+1&&c)", "!(a<b&&c&&d)", "!(a||b|c||d)", "!(a+1&&b&&c)", "!(a&&b&&c+1)", "!(a&&b<c&&d)", "!(a||b+1||c||d)", "!(a&&b&&c&&d)", "!(a*b&&c&&d)", "!(a&&b>>1&&c)", "!(a&&(b,c)&&d)", "!(a||b&&c||d)", "!(a&&b||c&&d)", "!(f(1)&&a-1&&g(2))", "!(a&&b&c&&d)", "!(a||b^c||d)", "!(a instanceof f&&b&&c)", "!(a in o1||b||c)", "!(a==b&&c==d&&p==q)", "!(a??b)", "!(!a&&!b)", "!(a==b||!c)", "!(f(1)&&g(2))", "!(f(1)==a||g(2)!=b)", "!!(a&&b)", "!!(a==b)", "!(a===b)==c", "c+!(a==b&&c==d)", "!(a==b&&c==d)+c", "typeof!(a==b||c==d)", "-!(a!=b&&c!=d)"}, hit: `x=!a\|\|!b`},
 	{id: "not-compare", doc: "util.go !(a==b) => a!=b, !!a in a boolean position", kind: 'P', t: []string{"x=!(a==b);y=!(a!==b);z=!(a<b);f(x,y,z)", "if(!!a)f(1)", "x=!!a;f(x)", "x=!!!a;f(x)", "if(!(a==b))f(1);else g(2)", "x=!(a!=b)?c:d;f(x)", "for(;!!a;)break;while(!!(a<b))break", "x=!(a==b)+1;y=-!(a===b);f(x,y)", "x=!((a==b));y=!(a==b,c);f(x,y)",
 		"x=!!(a<b);y=!!(a==b);z=!!(a&&b);w=!!!(a<b);f(x,y,z,w)", "x=!(a instanceof f);y=!(a in o1);f(x,y)", "x=!!a?1:2;y=!!a&&b;z=!!a||b;f(x,y,z)", "if(!!a&&!!b)f(1)", "x=[!!a,!a,!!!!a];f(x)"}, hit: `x=a!=b,y=a===b,z=!\(a<b\)`},
 	{id: "str-concat", doc: "util.go:940 string concatenations merged", kind: 'P', t: []string{"x=\"a\"+\"b\"+c+\"d\"+\"e\";f(x)", "x=c+\"d\"+\"e\";f(x)", "x=c+1+\"d\"+\"e\";f(x)", "x=\"a\"+(\"b\"+c);f(x)", "x='a'+\"b\"+`c`;f(x)", "x=\"a\"+1+2;y=1+2+\"a\";f(x,y)", "x=c+(\"d\"+\"e\");f(x)", "x=\"</scr\"+\"ipt>\";f(x)", "x=c-\"d\"+\"e\";y=c*\"2\"+\"3\";f(x,y)", "x=\"a\\\n\"+\"b\";f(x)", "x=\"\\0\"+\"1\";f(x,x.length)", "x=\"\\ud83d\"+\"\\ude00\";f(x,x.length)"}, hit: `x="ab"\+c\+"de"`},
@@ -173,6 +174,10 @@ var c01Rules = []c01Rule{
 	{id: "hoist-pattern", doc: "vars.go hoistVars: destructuring declarations as hoist target / converted to assignments", kind: 'P',
 		t: []string{"function t(){var {a}=o1;f(a);var [b]=o2;g(b)}t()", "function t(){var z=1;f(z);var {a}=o1,y=2;g(a,y)}t()", "function t(){var {a}=o1;f(a);var {n:[]}=o2;g(1)}t()", "var {a}=o1;if(a)var {n:[]}=o2;g(a)", "var {a}=o1;for(var {n:[]}=o2;;)break",
 			"function t(){var [a]=[1];let z=1;var [b]=[2];g(a,b,z)}t()", "function t(){var {a}=o1;f(a);var {b}=o2;g(b)}t()", "function t(){var z=1;for(var {a} of [o1])g(a,z)}t()", "function t(){var z=1;for(var k in o1)g(k,z)}t()"}, hit: `var\{a\}=o1,b;f\(a\),\[b\]=o2`},
+	{id: "var-decl-order", doc: "js.go minifyVarDecl: declarators without initialiser are moved to the front, the others keep their order (stable sort; also for more than 12 declarators)", kind: 'P',
+		gen: c01RuleLongVars, hit: `var v0=f\(0\),v1=f\(1\),v2=f\(2\)`},
+	{id: "rename-many", doc: "vars.go renamer: short names are handed out in frequency order and skip reserved words (`in` is the 168th, `do` the 281st, `if` the 1140th name of a scope)", kind: 'P',
+		gen: c01RuleManyBindings},
 	{id: "loop-rewrite", doc: "js.go while(a) => for(;a;), do-while, for body", kind: 'P', t: []string{"while(a<3)a++;f(a)", "do a++;while(a<3);f(a)", "for(;;){f(1);break}", "while(true){f(1);break}", "while(1)break;f(1)", "while(0)f(1);g(2)", "do{f(1)}while(0);g(2)", "do f(1);while(a>b&&0)", "for(;true;)break", "for(;!0;){f(1);break}", "while(a){a=0}", "for(;a;)a=0;",
 		"do;while(f(1)<0)", "while(f(1),0);", "for(var i=0;i<2;i++){}f(i)", "for(var i=0;i<2;i++);f(i)", "for(var i=0;i<2;i++){f(i)}", "for(var i=0;i<2;i++){f(i);g(i)}", "for(var i=0;i<2;i++)if(a)f(i)", "while(a<3){a++;if(b)break}", "do{if(a)break;a=1}while(1)", "do var z=1;while(0);f(z)", "if(a)do f(1);while(0);else g(2)", "if(a)while(0);else g(2)"}, hit: `for\([^;]*;a<3;\)a\+\+`},
 	{id: "dead-var-after-flow", doc: "stmtlist.go optimizeStmtList: statements after return/throw/break/continue are kept (a hoisted var declaration still binds)", kind: 'P',
@@ -250,7 +255,11 @@ func c01RulesStage(c *Ctx) error {
 	}
 	for ri := range c01Rules {
 		rule := &c01Rules[ri]
-		for ti, t := range rule.t {
+		tmpls := rule.t
+		if rule.gen != nil {
+			tmpls = append(append([]string(nil), tmpls...), rule.gen()...)
+		}
+		for ti, t := range tmpls {
 			vars := c01RuleFreeVars(t)
 			var bodies []string
 			if rule.kind == 'E' {
@@ -388,6 +397,63 @@ func c01RulesStage(c *Ctx) error {
 	}
 	st.End()
 	return nil
+}
+
+// c01RuleLongVars: `var` statements with 13 … 40 declarators whose initialisers are host calls or depend on earlier
+// declarators, some without initialiser (those are sorted to the front), as one statement or as several that are merged.
+func c01RuleLongVars() []string {
+	var out []string
+	for _, n := range []int{3, 12, 13, 14, 20, 40} {
+		for variant := 0; variant < 4; variant++ {
+			var decl, use []string
+			for i := 0; i < n; i++ {
+				nm := fmt.Sprintf("v%d", i)
+				use = append(use, nm)
+				switch {
+				case variant == 1 && i%3 == 2:
+					decl = append(decl, nm) // no initialiser
+				case variant == 2 && i > 0:
+					decl = append(decl, fmt.Sprintf("%s=v%d+1", nm, i-1)) // data dependence
+				case variant == 2:
+					decl = append(decl, nm+"=1")
+				default:
+					decl = append(decl, fmt.Sprintf("%s=f(%d)", nm, i))
+				}
+			}
+			if variant == 3 {
+				out = append(out, "var "+strings.Join(decl, ";var ")+";g("+strings.Join(use, ",")+")")
+				out = append(out, "function t(){var "+strings.Join(decl, ";var ")+";return["+strings.Join(use, ",")+"]}g(t())")
+			} else {
+				out = append(out, "var "+strings.Join(decl, ",")+";g("+strings.Join(use, ",")+")")
+				out = append(out, "function t(){var "+strings.Join(decl, ",")+";return["+strings.Join(use, ",")+"]}g(t())")
+			}
+		}
+	}
+	return out
+}
+
+// c01RuleManyBindings: one scope with 60 … 1200 renamable bindings (locals, parameters, inner functions) that are all used.
+func c01RuleManyBindings() []string {
+	var out []string
+	for _, n := range []int{60, 170, 300, 1200} {
+		var names, decl, params, fns []string
+		for i := 0; i < n; i++ {
+			nm := fmt.Sprintf("w%d", i)
+			names = append(names, nm)
+			decl = append(decl, fmt.Sprintf("%s=%d", nm, i))
+			if i < n/3 {
+				params = append(params, nm)
+			} else if i < 2*n/3 {
+				fns = append(fns, fmt.Sprintf("function %s(){return %d}", nm, i))
+			}
+		}
+		sum := strings.Join(names, "+")
+		out = append(out, "function t(){var "+strings.Join(decl, ",")+";return "+sum+"}f(t())")
+		out = append(out, "function t(){let "+strings.Join(decl, ",")+";return "+sum+"}f(t())")
+		out = append(out, "function t("+strings.Join(params, ",")+"){"+strings.Join(fns, "")+"var "+strings.Join(decl[2*n/3:], ",")+";return "+strings.Join(params, "+")+"+"+names[n/3]+"()+"+strings.Join(names[2*n/3:], "+")+"}f(t(1,2,3))")
+		out = append(out, "{let "+strings.Join(decl, ",")+";f("+sum+")}")
+	}
+	return out
 }
 
 func c01RulePerm(r *h.RNG, n int) []int {
